@@ -118,9 +118,18 @@ func NewFastModularNetworkSolver(biasNeuronCount, inputNeuronCount, outputNeuron
 		fmm.adjacentMatrix[i] = make([]float64, totalNeuronCount)
 	}
 
+	// The pairs of neurons already joined by a connection seen earlier
+	joined := make(map[[2]int]bool, len(connections))
 	for i := 0; i < len(connections); i++ {
 		crs := connections[i].SourceIndex
 		crt := connections[i].TargetIndex
+		if joined[[2]int{crs, crt}] {
+			// One more connection between the same pair of neurons (e.g. a link and its twin flagged as recurrent):
+			// the neighbours are listed already, the pair transmits the sum of the weights - as forward propagation does
+			fmm.adjacentMatrix[crs][crt] += connections[i].Weight
+			continue
+		}
+		joined[[2]int{crs, crt}] = true
 		// Holds outgoing nodes
 		fmm.adjacentList[crs] = append(fmm.adjacentList[crs], crt)
 		// Holds incoming nodes
